@@ -10,30 +10,33 @@
 namespace NiftyVerif.TreeShare
 
 /-- operator trees: `var k` = FieldAdapter / extraction of key `k`; `leaf id e` = an opaque unary operator applied to `e`;
-    `add`/`mul` = `_OpSum`/`_OpProd`; `letE k b body` = `body.partial_insert(FieldAdapter(k).adjoint(b))` -/
+    `add`/`mul` = `_OpSum`/`_OpProd`; `pair a b` = argument tuple of an operator that reads several keys; `letE k b body` = `body.partial_insert(FieldAdapter(k).adjoint(b))` -/
 inductive Ex where
   | var (k : Nat)
   | leaf (id : Nat) (arg : Ex)
   | add (a b : Ex)
   | mul (a b : Ex)
+  | pair (a b : Ex)
   | letE (k : Nat) (b body : Ex)
 deriving DecidableEq, Repr, Inhabited
 
 namespace Ex
 
 /-- evaluation in any value domain `V` (fields, linearizations, dual numbers, …) -/
-def eval {V : Type} (add mul : V → V → V) (F : Nat → V → V) : Ex → (Nat → V) → V
+def eval {V : Type} (add mul pr : V → V → V) (F : Nat → V → V) : Ex → (Nat → V) → V
   | var k, ρ => ρ k
-  | leaf i a, ρ => F i (eval add mul F a ρ)
-  | .add a b, ρ => add (eval add mul F a ρ) (eval add mul F b ρ)
-  | .mul a b, ρ => mul (eval add mul F a ρ) (eval add mul F b ρ)
-  | letE k b body, ρ => eval add mul F body (fun j => if j = k then eval add mul F b ρ else ρ j)
+  | leaf i a, ρ => F i (eval add mul pr F a ρ)
+  | .add a b, ρ => add (eval add mul pr F a ρ) (eval add mul pr F b ρ)
+  | .mul a b, ρ => mul (eval add mul pr F a ρ) (eval add mul pr F b ρ)
+  | .pair a b, ρ => pr (eval add mul pr F a ρ) (eval add mul pr F b ρ)
+  | letE k b body, ρ => eval add mul pr F body (fun j => if j = k then eval add mul pr F b ρ else ρ j)
 
 def letFree : Ex → Bool
   | var _ => true
   | leaf _ a => letFree a
   | .add a b => letFree a && letFree b
   | .mul a b => letFree a && letFree b
+  | .pair a b => letFree a && letFree b
   | letE _ _ _ => false
 
 /-- substitute `b` for `var k` (only used on let-free terms, where no capture can occur) -/
@@ -42,6 +45,7 @@ def subst (k : Nat) (b : Ex) : Ex → Ex
   | leaf i a => leaf i (subst k b a)
   | .add x y => .add (subst k b x) (subst k b y)
   | .mul x y => .mul (subst k b x) (subst k b y)
+  | .pair x y => .pair (subst k b x) (subst k b y)
   | letE j b2 body => letE j (subst k b b2) (if j = k then body else subst k b body)
 
 /-- expand every inserted key, innermost first -/
@@ -50,6 +54,7 @@ def inlineAll : Ex → Ex
   | leaf i a => leaf i (inlineAll a)
   | .add a b => .add (inlineAll a) (inlineAll b)
   | .mul a b => .mul (inlineAll a) (inlineAll b)
+  | .pair a b => .pair (inlineAll a) (inlineAll b)
   | letE k b body => subst k (inlineAll b) (inlineAll body)
 
 /-- keys the operator reads (its MultiDomain), the way `partial_insert` computes it:
@@ -59,6 +64,7 @@ def keys : Ex → List Nat
   | leaf _ a => keys a
   | .add a b => keys a ++ keys b
   | .mul a b => keys a ++ keys b
+  | .pair a b => keys a ++ keys b
   | letE k b body => keys b ++ (keys body).filter (· ≠ k)
 
 /-- every inserted key is actually read by the body it is inserted into -/
@@ -67,6 +73,7 @@ def letsUsed : Ex → Bool
   | leaf _ a => letsUsed a
   | .add a b => letsUsed a && letsUsed b
   | .mul a b => letsUsed a && letsUsed b
+  | .pair a b => letsUsed a && letsUsed b
   | letE k b body => letsUsed b && letsUsed body && (keys body).contains k
 
 def size : Ex → Nat
@@ -74,6 +81,7 @@ def size : Ex → Nat
   | leaf _ a => size a + 1
   | .add a b => size a + size b + 1
   | .mul a b => size a + size b + 1
+  | .pair a b => size a + size b + 1
   | letE _ b body => size b + size body + 1
 
 def numLets : Ex → Nat
@@ -81,7 +89,36 @@ def numLets : Ex → Nat
   | leaf _ a => numLets a
   | .add a b => numLets a + numLets b
   | .mul a b => numLets a + numLets b
+  | .pair a b => numLets a + numLets b
   | letE _ b body => numLets b + numLets body + 1
+
+/-- does `sub` occur in the expression -/
+def occurs (sub : Ex) : Ex → Bool
+  | var j => decide (var j = sub)
+  | leaf i a => decide (leaf i a = sub) || occurs sub a
+  | .add a b => decide (Ex.add a b = sub) || occurs sub a || occurs sub b
+  | .mul a b => decide (Ex.mul a b = sub) || occurs sub a || occurs sub b
+  | .pair a b => decide (Ex.pair a b = sub) || occurs sub a || occurs sub b
+  | letE j b body => decide (letE j b body = sub) || occurs sub b || occurs sub body
+
+/-- the sharing decision, transcribed as its effect: replace every (outermost) occurrence of the sub-expression `sub` by the
+    fresh key `k` -/
+def shareAll (sub : Ex) (k : Nat) : Ex → Ex
+  | var j => if var j = sub then var k else var j
+  | leaf i a => if leaf i a = sub then var k else leaf i (shareAll sub k a)
+  | .add a b => if Ex.add a b = sub then var k else .add (shareAll sub k a) (shareAll sub k b)
+  | .mul a b => if Ex.mul a b = sub then var k else .mul (shareAll sub k a) (shareAll sub k b)
+  | .pair a b => if Ex.pair a b = sub then var k else .pair (shareAll sub k a) (shareAll sub k b)
+  | letE j b body => letE j b body
+
+/-- every inserted key replaced ALL occurrences of its definition (the optimiser shared maximally) -/
+def maximal : Ex → Bool
+  | var _ => true
+  | leaf _ a => maximal a
+  | .add a b => maximal a && maximal b
+  | .mul a b => maximal a && maximal b
+  | .pair a b => maximal a && maximal b
+  | letE _ b body => maximal b && maximal body && !occurs (inlineAll b) (inlineAll body)
 
 end Ex
 
